@@ -2211,6 +2211,19 @@ func (nc *nilCtx) checkCallbackErrorDeref(r *Report) {
 					if cell == nil {
 						continue
 					}
+					// `if err != nil { msg += err.Error() }`: guarded where it is called
+					guarded := false
+					if ci, isI := c.(ssa.Instruction); isI {
+						pv := fx.path(com.Value)
+						for _, a := range fx.AtomsAt(ci) {
+							if a.Op == "NIL" && a.Neg && a.A == pv {
+								guarded = true
+							}
+						}
+					}
+					if guarded {
+						continue
+					}
 					// the step's logic stores into the cell on every failing path
 					lf := s.Fn("logic")
 					bad := ""
